@@ -469,7 +469,7 @@ def main(argv=None):
         if f.get("property") == pid and f.get("status") == "open":
             print(f"KNOWN-FINDING: property={pid} {f['what']} (matched {known.get(f['id'], 0)} cases this run)")
     if bykind:
-        rdir = os.path.join(VERIF, "replays", pid)
+        rdir = os.path.join(os.environ.get("VERIF_REPLAY_DIR") or os.path.join(VERIF, "replays"), pid)
         os.makedirs(rdir, exist_ok=True)
         for kind, f in sorted(bykind.items()):
             path = os.path.join(rdir, chash(f["case"]) + ".json")
